@@ -109,14 +109,14 @@ def build(pid=None, timeout=3000):
         lock.close()
 
 
-def check_props(pid, timeout=900):
+def check_props(pid, workname=None, timeout=900):
     """Re-check Cxx/Props.v with the kernel in this run and read the Print Assumptions answers."""
     path = os.path.join(COQ, 'theories', pid, 'Props.v')
     src = _strip_comments(open(path).read())
     theorems = re.findall(r'^\s*Theorem\s+(\w+)', src, re.M)
     printed = re.findall(r'^\s*Print\s+Assumptions\s+(\w+)\s*\.', src, re.M)
     r = subprocess.run(['timeout', str(timeout), 'coqc', '-noglob', '-Q', 'theories', 'PV',
-                        '-o', os.path.join(VERIF, 'work', pid, 'Props.vo'),
+                        '-o', os.path.join(VERIF, 'work', workname or pid, 'Props.vo'),
                         os.path.join('theories', pid, 'Props.v')],
                        cwd=COQ, stdout=subprocess.PIPE, stderr=subprocess.STDOUT, text=True)
     out = r.stdout
@@ -211,7 +211,7 @@ def evaluate(pid, header, encoded, workdir, tag='cases', max_cases=400, max_byte
             f.write('\n].\nEval vm_compute in (run cases).\n')
         paths.append(path)
     fails = {}
-    with ThreadPoolExecutor(max_workers=min(16, os.cpu_count() or 4)) as ex:
+    with ThreadPoolExecutor(max_workers=int(os.environ.get('VT_WORKERS') or 0) or min(16, os.cpu_count() or 4)) as ex:
         for path, (pairs, err, dt) in zip(paths, ex.map(_run_shard, paths)):
             if pairs is None:
                 raise RuntimeError('coqc failed on %s:\n%s' % (path, err))
